@@ -34,14 +34,14 @@ def gates(c, tier):
     return out
 
 
-def check_one(kind, d):
+def check_one(kind, d, budget=3):
     obj = gs.to_obj(sl, kind, d)
     try:
         s = str(obj)
     except Exception as e:
         return [(f"str-exc:{norm_msg(e)}", f"{type(e).__name__}: {e}")]
     try:
-        with cpu_limit(3):
+        with cpu_limit(budget):
             back = gs.cls_of(sl, kind).from_string(s)
     except CpuTimeout:
         return [("reparse-cpu-timeout", f"from_string(str(d)) did not return within 3 CPU-seconds ({len(s)} chars): {s[:100]!r}")]
@@ -109,7 +109,19 @@ def run_shard(ctx: Ctx, acc: Acc):
         if acc.counters.get("cpu-timeouts", 0) >= 4:
             acc.count("shard-stopped-early-after-cpu-timeouts")
             break
+    # definitions with hundreds to thousands of extensions, names and list members
+    for si, size in enumerate([150, 400, 1100, 2600] + ([6000] if ctx.thorough else [])):
+        for ki, kind in enumerate(gs.KINDS):
+            if (si * 3 + ki) % ctx.nshards != ctx.shard:
+                continue
+            acc.case()
+            acc.count("many-extensions")
+            acc.nontrivial("many", kind, size)
+            for key, what in check_one(kind, gs.many_def(ctx.seed, kind, size), budget=30):
+                acc.violation(key + ":many-extensions", what[:300], {"kind": kind, "many": [ctx.seed, size]})
 
 
 def replay(w):
+    if w.get("many"):
+        return [(k + ":many-extensions", x) for k, x in check_one(w["kind"], gs.many_def(w["many"][0], w["kind"], w["many"][1]), budget=30)]
     return check_one(w["kind"], w["definition"])
